@@ -204,6 +204,25 @@ pub fn run(tier: &str) -> i32 {
       return rep.finish();
     }
   };
+  // the plug-in interface past the discovery layer's routing: a second request while the reply is out
+  for forged in [false, true] {
+    match h::second_request_run(&ca, &cb, forged, &old) {
+      Ok((accepted, completed)) => {
+        if !completed {
+          rep.violation(
+            &format!("C19:blocked:second-request:{}", if forged { "earlier-handshake" } else { "replayed" }),
+            json!({"second_request": if forged { "request of an earlier handshake" } else { "the genuine request replayed" }}),
+            &format!(
+              "after the replier had sent its reply, begin_handshake_reply was given {} ({}); the genuine final message was then refused and the handshake never completed",
+              if forged { "the request of an earlier handshake" } else { "the genuine request once more" },
+              if accepted { "accepted" } else { "refused" }
+            ),
+          );
+        }
+      }
+      Err(e) => rep.machinery_errors.push(format!("second-request run: {e}")),
+    }
+  }
   let scs = scenarios(tier, &old);
   let results = par_map(scs.len(), 16, |i| h::run(&ca, &cb, &scs[i], &old));
   let (mut applicable, mut accepted, mut completed, mut void_alterations) = (0u64, 0u64, 0u64, 0u64);
